@@ -2,9 +2,9 @@ SPECIFICATION Spec
 CONSTANTS
   N = 2
   Cls = "exact"
-  Gates <- GatesE2q
+  Gates <- GatesE2t
   NewParams <- NewParamsC
-  Queries <- QueriesE2q
+  Queries <- QueriesE2t
   MaxDepth = 4
   Record = FALSE
   Deviations <- NoDev
